@@ -225,74 +225,89 @@ pub enum MPathOp<'a> {
 /// the primary reading; further entries are the readings the statement leaves
 /// open (see DESIGN 2.4), each accepted and counted.
 pub fn path_outcomes(abs: bool, segs: &Segs, op: &MPathOp) -> Vec<Segs> {
-	fn sym_fold(abs: bool, start: &Segs, items: &[&[u8]], skip_empty_on_empty: bool, dot_on_trailing_empty_adds: bool) -> Segs {
-		// open: 0 = closed, 1 = opened by '.', 2 = opened by '..'
-		let mut s = start.clone();
-		let mut open = 0u8;
-		for it in items {
-			match *it {
-				b"." => {
-					if open != 2 {
-						open = 1
-					}
-				}
-				b".." => {
-					m_pop(abs, &mut s);
-					open = 2;
-				}
-				seg => {
-					if !(seg.is_empty() && s.is_empty() && skip_empty_on_empty) {
-						s.push(seg.to_vec());
-					}
-					open = 0;
-				}
-			}
+	fn add(v: &mut Vec<(Segs, u8)>, x: (Segs, u8)) {
+		if !v.contains(&x) {
+			v.push(x)
 		}
-		if open != 0 && !s.is_empty() {
-			let ends_empty = s.last().map(|l| l.is_empty()).unwrap_or(false);
-			// Left open by the statement: '.' applied to a list that already
-			// ends in an empty segment ("a/" + "." is "a/" or "a//").
-			if !(open == 1 && ends_empty) || dot_on_trailing_empty_adds {
-				s.push(Vec::new());
-			}
-		}
-		s
 	}
 
-	let mut out: Vec<Segs> = Vec::new();
-	let mut add = |s: Segs| {
-		if !out.contains(&s) {
-			out.push(s)
+	/// Folds dot-segment semantics over `items`. The state is a *set* of
+	/// (list, open) pairs: after every item the list may also be re-read with a
+	/// leading shield stripped, because an implementation working on the text
+	/// cannot tell a shield it wrote from a '.' segment that was there before.
+	/// open: 0 = closed, 1 = opened by '.', 2 = opened by '..'
+	fn sym_fold(abs: bool, start: &Segs, items: &[&[u8]]) -> Vec<Segs> {
+		let mut states: Vec<(Segs, u8)> = vec![(start.clone(), 0)];
+		for it in items {
+			let mut next: Vec<(Segs, u8)> = Vec::new();
+			for (s, open) in &states {
+				match *it {
+					b"." => add(&mut next, (s.clone(), if *open == 2 { 2 } else { 1 })),
+					b".." => {
+						let mut t = s.clone();
+						m_pop(abs, &mut t);
+						add(&mut next, (t, 2));
+					}
+					seg => {
+						// left open by the statement: an empty segment symbolically
+						// pushed onto an empty path is appended or skipped
+						if seg.is_empty() && s.is_empty() {
+							add(&mut next, (s.clone(), 0));
+						}
+						let mut t = s.clone();
+						t.push(seg.to_vec());
+						add(&mut next, (t, 0));
+					}
+				}
+			}
+			let mut closed = next.clone();
+			for (s, open) in &next {
+				let st = strip(s).to_vec();
+				add(&mut closed, (st, *open));
+			}
+			closed.truncate(32);
+			states = closed;
 		}
-	};
+		let mut out: Vec<Segs> = Vec::new();
+		for (s, open) in states {
+			let mut variants: Vec<Segs> = Vec::new();
+			if open != 0 && !s.is_empty() {
+				let ends_empty = s.last().map(|l| l.is_empty()).unwrap_or(false);
+				let mut t = s.clone();
+				t.push(Vec::new());
+				variants.push(t);
+				// left open by the statement: '.' applied to a list that already
+				// ends in an empty segment ("a/" + "." is "a/" or "a//")
+				if open == 1 && ends_empty {
+					variants.push(s.clone());
+				}
+			} else {
+				variants.push(s);
+			}
+			for v in variants {
+				if !out.contains(&v) {
+					out.push(v);
+				}
+			}
+		}
+		out
+	}
+
 	match op {
 		MPathOp::Push(s) => {
 			let mut r = segs.clone();
 			r.push(s.to_vec());
-			add(r);
+			vec![r]
 		}
 		MPathOp::Pop => {
 			let mut r = segs.clone();
 			m_pop(abs, &mut r);
-			add(r);
+			vec![r]
 		}
-		MPathOp::Clear => add(Vec::new()),
-		MPathOp::SymPush(s) => {
-			for a in [true, false] {
-				for b in [true, false] {
-					add(sym_fold(abs, segs, &[*s], a, b));
-				}
-			}
-		}
-		MPathOp::SymAppend(items) => {
-			for a in [true, false] {
-				for b in [true, false] {
-					add(sym_fold(abs, segs, items, a, b));
-				}
-			}
-		}
+		MPathOp::Clear => vec![Vec::new()],
+		MPathOp::SymPush(s) => sym_fold(abs, segs, &[*s]),
+		MPathOp::SymAppend(items) => sym_fold(abs, segs, items),
 	}
-	out
 }
 
 /// Renders a list as path text without any shield (used only to print
